@@ -987,3 +987,114 @@ def program_ops(prog: Program) -> set:
 
 __all__ = [n for n in dir() if not n.startswith("_")]
 assert INT_MAX and INT_MIN and Unmodelled
+
+
+# ------------------------------------------------------------------------------------------
+# Renaming (C12 composition, C13 twins, C15/C16 printers)
+# ------------------------------------------------------------------------------------------
+
+import dataclasses as _dc
+
+_NAME_FIELDS = {
+    "Ref": ("name",), "TypeOf": ("name",), "Decl": ("name",), "MemDecl": ("name",), "Write": ("m",), "Latch": ("m",),
+    "MemRead": ("m",), "Assign": ("target",), "PropRead": ("e",), "For": ("var",), "Func": ("name",), "Call": ("f",),
+}
+
+
+def map_names(node, fn):
+    """Rebuild `node` with every identifier passed through fn (signal type strings untouched)."""
+    if isinstance(node, tuple):
+        return tuple(map_names(x, fn) for x in node)
+    if not _dc.is_dataclass(node) or isinstance(node, type):
+        return node
+    cls = type(node).__name__
+    kw = {}
+    for f in _dc.fields(node):
+        v = getattr(node, f.name)
+        if f.name in _NAME_FIELDS.get(cls, ()):
+            kw[f.name] = fn(v)
+        elif cls == "Func" and f.name == "params":
+            kw[f.name] = tuple((k, fn(n)) for k, n in v)
+        elif cls == "Place" and f.name == "props":
+            kw[f.name] = tuple((k, x if isinstance(x, (str, tuple)) and not _dc.is_dataclass(x) else map_names(x, fn)) for k, x in v)
+        elif cls in ("SigLit", "Proj") and f.name == "ty":
+            kw[f.name] = map_names(v, fn) if _dc.is_dataclass(v) else v
+        elif cls == "BSel" and f.name == "ty":
+            kw[f.name] = v
+        elif cls in ("MemDecl",) and f.name == "ty":
+            kw[f.name] = v
+        elif cls == "Raw":
+            kw[f.name] = v
+        elif cls == "Import":
+            kw[f.name] = v
+        elif cls == "Place" and f.name == "proto":
+            kw[f.name] = v
+        elif cls in ("Bin", "Un") and f.name == "op":
+            kw[f.name] = v
+        elif cls == "Decl" and f.name == "kind":
+            kw[f.name] = v
+        elif cls == "Assign" and f.name == "prop":
+            kw[f.name] = v
+        elif cls == "PropRead" and f.name == "prop":
+            kw[f.name] = v
+        else:
+            kw[f.name] = map_names(v, fn)
+    return type(node)(**kw)
+
+
+def prefix_program(prog: Program, prefix: str) -> Program:
+    return map_names(prog, lambda n: prefix + n)
+
+
+def shift_places(node, dx: int, dy: int):
+    """Translate every place() with literal coordinates."""
+    if isinstance(node, tuple):
+        return tuple(shift_places(x, dx, dy) for x in node)
+    if not _dc.is_dataclass(node) or isinstance(node, type):
+        return node
+    if isinstance(node, Place) and isinstance(node.x, Num) and isinstance(node.y, Num):
+        return Place(node.proto, Num(node.x.v + dx), Num(node.y.v + dy), node.props)
+    return type(node)(**{f.name: shift_places(getattr(node, f.name), dx, dy) for f in _dc.fields(node)})
+
+
+def subst(node, refs: dict, names: dict):
+    """Substitute Ref(n) -> refs[n] (an expression) and rename identifiers via `names`."""
+    if isinstance(node, tuple):
+        return tuple(subst(x, refs, names) for x in node)
+    if not _dc.is_dataclass(node) or isinstance(node, type):
+        return node
+    if isinstance(node, Ref):
+        if node.name in refs:
+            return refs[node.name]
+        return Ref(names.get(node.name, node.name))
+    if isinstance(node, TypeOf):
+        if node.name in refs and isinstance(refs[node.name], Ref):
+            return TypeOf(refs[node.name].name)
+        return TypeOf(names.get(node.name, node.name))
+    if isinstance(node, PropRead) and node.e in refs and isinstance(refs[node.e], Ref):
+        return PropRead(refs[node.e].name, node.prop)
+    if isinstance(node, Assign) and node.target in refs and isinstance(refs[node.target], Ref):
+        return Assign(refs[node.target].name, node.prop, subst(node.e, refs, names))
+    cls = type(node).__name__
+    kw = {}
+    for f in _dc.fields(node):
+        v = getattr(node, f.name)
+        if f.name in _NAME_FIELDS.get(cls, ()):
+            kw[f.name] = names.get(v, v)
+        elif isinstance(v, str) or v is None or isinstance(v, (int, bool)):
+            kw[f.name] = v
+        elif cls == "Place" and f.name == "props":
+            kw[f.name] = tuple((k, x if isinstance(x, (str, tuple)) and not _dc.is_dataclass(x) else subst(x, refs, names)) for k, x in v)
+        elif cls == "Func" and f.name == "params":
+            kw[f.name] = v
+        else:
+            kw[f.name] = subst(v, refs, names)
+    return type(node)(**kw)
+
+
+def declared_names(stmts) -> list:
+    out = []
+    for s in stmts:
+        if isinstance(s, (Decl, MemDecl)):
+            out.append(s.name)
+    return out
